@@ -318,16 +318,24 @@ func embeddedDescriptorGrounds(label string, emitted, request map[string]*descri
 // (including the size/marshal/unmarshal closures built by ProtoMethods) assigns a package-level variable: shared
 // mutable state outside the message would be written by concurrent readers of different — or the same — messages.
 // Decided by resolving the root identifier of every assignment target through go/types.
-func globalWriteGrounds(pk *packages.Package) []Ground {
+func globalWriteGrounds(pk *packages.Package) []Ground { return globalWriteGroundsOf(pk, false) }
+
+func globalWriteGroundsOf(pk *packages.Package, allFuncs bool) []Ground {
 	var out []Ground
 	n := 0
 	for _, f := range pk.Syntax {
 		for _, d := range f.Decls {
 			fd, ok := d.(*ast.FuncDecl)
-			if !ok || fd.Recv == nil || fd.Body == nil {
+			if !ok || fd.Body == nil || fd.Name.Name == "init" {
 				continue
 			}
-			recv := strings.TrimPrefix(types.ExprString(fd.Recv.List[0].Type), "*")
+			if fd.Recv == nil && !allFuncs {
+				continue
+			}
+			recv := "func"
+			if fd.Recv != nil {
+				recv = strings.TrimPrefix(types.ExprString(fd.Recv.List[0].Type), "*")
+			}
 			check := func(e ast.Expr, pos token.Pos) {
 				for {
 					switch x := e.(type) {
@@ -373,6 +381,29 @@ func globalWriteGrounds(pk *packages.Package) []Ground {
 					}
 				case *ast.IncDecStmt:
 					check(s.X, s.Pos())
+				case *ast.CallExpr:
+					// pkgVar.Method(…) where the method has a pointer receiver and the variable is a struct value
+					// (sync.Pool, sync.Map, sync.Once, caches): the call may write shared state
+					if sel, ok := s.Fun.(*ast.SelectorExpr); ok {
+						if id, ok := sel.X.(*ast.Ident); ok {
+							if v, ok := pk.TypesInfo.Uses[id].(*types.Var); ok && v.Pkg() != nil && v.Parent() == v.Pkg().Scope() {
+								if selInfo, ok := pk.TypesInfo.Selections[sel]; ok && selInfo.Kind() == types.MethodVal {
+									if fn, ok := selInfo.Obj().(*types.Func); ok {
+										if sig, ok := fn.Type().(*types.Signature); ok && sig.Recv() != nil {
+											_, ptrRecv := sig.Recv().Type().(*types.Pointer)
+											_, varIsPtr := v.Type().Underlying().(*types.Pointer)
+											_, varIsIface := v.Type().Underlying().(*types.Interface)
+											if ptrRecv && !varIsPtr && !varIsIface {
+												n++
+												out = append(out, Ground{Name: fmt.Sprintf("%s/%s.%s/frame[no package-level variable is assigned]#%d", shortPkg(pk.PkgPath), recv, fd.Name.Name, n), OK: false,
+													Text: "methods of generated messages, views and wrappers assign no package-level variable", Detail: pk.Fset.Position(s.Pos()).String() + ": calls " + v.Name() + "." + fn.Name() + " (pointer receiver on a package-level value: shared mutable state)"})
+											}
+										}
+									}
+								}
+							}
+						}
+					}
 				case *ast.UnaryExpr:
 					// &global handed to something that may write it (sync.Once-less lazy init helpers): flag address-taking of package variables
 					if s.Op == token.AND {
@@ -503,6 +534,38 @@ func typeTableGrounds(pk *packages.Package) []Ground {
 		}
 		out = append(out, Ground{Name: name + "/goTypes[i-th Go type == i-th declaration]", OK: okAll, Detail: detail,
 			Text: fmt.Sprintf("%s_goTypes lists the %d enums and %d messages of the file in protobuf-go's flattened declaration order", base, len(enums), len(msgs))})
+		// enumTypes index used by every enum type's Descriptor() and Type()
+		eidx := map[string]int{}
+		for i, en := range enums {
+			eidx[en] = i
+		}
+		for _, f := range pk.Syntax {
+			for _, d := range f.Decls {
+				fdl, ok := d.(*ast.FuncDecl)
+				if !ok || fdl.Recv == nil || fdl.Body == nil || (fdl.Name.Name != "Descriptor" && fdl.Name.Name != "Type") {
+					continue
+				}
+				recv := strings.TrimPrefix(types.ExprString(fdl.Recv.List[0].Type), "*")
+				want, isEnum := eidx[recv]
+				if !isEnum {
+					continue
+				}
+				ast.Inspect(fdl.Body, func(n ast.Node) bool {
+					ie, ok := n.(*ast.IndexExpr)
+					if !ok {
+						return true
+					}
+					if id, ok := ie.X.(*ast.Ident); ok && id.Name == base+"_enumTypes" {
+						if bl, ok := ie.Index.(*ast.BasicLit); ok {
+							got, _ := strconv.Atoi(bl.Value)
+							out = append(out, Ground{Name: fmt.Sprintf("%s/%s.%s/enumTypes-index", name, recv, fdl.Name.Name), OK: got == want,
+								Text: fmt.Sprintf("%s.%s uses the enum info at the enum's own position %d in the flattened declaration order", recv, fdl.Name.Name, want), Detail: fmt.Sprintf("index %d", got)})
+						}
+					}
+					return true
+				})
+			}
+		}
 		// msgTypes index of every message's (slow)ProtoReflect
 		idx := map[string]int{}
 		for i, m := range msgs {
